@@ -251,6 +251,27 @@ def run(rep, tier, rng):
         for m, what in r:
             rep.violation(f"C15|split-list-macro-path|{m}", f"{what} ({c.meta['kind']}): the lists are expanded by separate invocations, the first strips the helper attributes the second needs\n{c.code[:600]}",
                           {"kind": "compiled-split", "code": c.code, "spelling": m, "info": {}})
+    # ---- E-run: the two entry points when the arguments of the list contain macro_rules! fragments (the attribute entry gets
+    # them in `attr`, the derive entry inside the item)
+    FRA = ("macro_rules! mk { ($t:ty, $n:expr) => { @HEAD pub struct S<T>(pub T, pub [u8; 2 * $n]); } }\n"
+           "mk!(dyn ::core::fmt::Debug + Sync, 1 + 1);\n"
+           "pub fn run() { let s = S(5u8, [0u8; 4]); let c = ::core::clone::Clone::clone(&s); ::dxrt::ev!(\"entry\", \"o\" => format!(\"{} {}\", c.0, c.1.len())); }")
+    ARGS = "Clone, bound(&'static $t: ::core::marker::Send, [u8; 2 * $n]: ::core::marker::Copy, ..)"
+    ea = C.Case("ea", FRA.replace("@HEAD", f"#[::derive_ex::derive_ex({ARGS})]"), {})
+    ed = C.Case("ed", FRA.replace("@HEAD", f"#[derive(::derive_ex::Ex)] #[derive_ex({ARGS})]"), {})
+    _, enotes = C.run_cases([ea, ed], "c15e", header="#![allow(warnings)]", batch_size=1)
+    for nmsg in enotes:
+        rep.inconcl(nmsg)
+    ev_of = lambda c: next((e["o"] for e in c.events if e.get("k") == "entry"), None)
+    if ed.status != "ok" or ev_of(ed) is None:
+        rep.inconcl(f"fragment-argument program does not compile through the derive entry either: {[d['message'] for d in ed.diags if d['level'] == 'error'][:2]}")
+    elif ea.status != "inconclusive":
+        rep.evaluations += 1
+        rep.count("compiled_entry_pairs_with_fragment_arguments")
+        if ea.status != "ok" or ev_of(ea) != ev_of(ed):
+            d = next((x for x in ea.diags if x["level"] == "error"), {"message": f"observed {ev_of(ea)} vs {ev_of(ed)}"})
+            rep.violation("C15|entry|fragment-in-list-arguments", f"the attribute entry point and #[derive(Ex)] disagree when the list's arguments contain macro_rules! fragments: {(d['message'] or '')[:160]}\n{ea.code[:500]}",
+                          {"kind": "compiled-entry", "code": ea.code, "code_d": ed.code, "info": {}})
     kind, ia, ib, info = next(r for r in rel if r[0] == "split-derive")
     rep.sample({"relation": kind, "a": reqs[ia], "b": reqs[ib]})
     kind, ia, ib, info = next(r for r in rel if r[0] == "superset")
@@ -270,6 +291,14 @@ def run(rep, tier, rng):
 def replay(rep, path):
     j = json.load(open(path))["replay"]
     kind, info = j["kind"], j["info"]
+    if kind == "compiled-entry":
+        a, d = C.compile_single(j["code"], header="#![allow(warnings)]"), C.compile_single(j["code_d"], header="#![allow(warnings)]")
+        ev_of = lambda c: next((e["o"] for e in c.events if e.get("k") == "entry"), None)
+        if d.status == "ok" and (a.status != "ok" or ev_of(a) != ev_of(d)):
+            print(f"VIOLATION property=C15 replay={path}")
+            return 1
+        print("replay: no violation")
+        return 0
     if kind == "compiled-split":
         c = C.compile_single(j["code"], header="#![allow(warnings)]")
         r = judge_split(c)
